@@ -9,7 +9,7 @@ from .. import common
 from ..common import bits_equal, dec, enc, fd_directional, find_boxes, sig_key
 
 LEVEL = "exploration"
-RULE = "Random smooth maps R^in -> R^out (in/out ranks 0-3 incl. 0-d and size-1 dims, 2-4 positional arguments plus keyword arguments) with the differentiated argument selected by int / tuple / list / name. Reference Jacobian from the Richardson FD oracle on the same map evaluated with raw NumPy, reference Hessian from the FD oracle applied to autograd's (C01-judged) gradient plus a symmetric check. Checked operators: jacobian, grad, elementwise_grad, hessian, hessian_tensor_product, tensor_jacobian_product, make_hvp, make_ggnvp, make_jvp_reversemode, deriv, make_jvp, make_vjp, value_and_grad, grad_and_aux, grad_named, holomorphic_grad. Non-trivial iff the FD reference is self-consistent; distinct = distinct (in shape class, out shape class, argnum form, #extra args) signatures."
+RULE = "Random smooth maps R^in -> R^out (in/out ranks 0-3 incl. 0-d and size-1 dims, 2-4 positional arguments plus keyword arguments) with the differentiated argument selected by int (incl. negative positions, on variadic functions too) / tuple / list / name (also on functools.partial objects and functions with defaults); hessian also of the array-valued map. Reference Jacobian from the Richardson FD oracle on the same map evaluated with raw NumPy, reference Hessian from the FD oracle applied to autograd's (C01-judged) gradient plus a symmetric check. Checked operators: jacobian, grad, elementwise_grad, hessian, hessian_tensor_product, tensor_jacobian_product, make_hvp, make_ggnvp, make_jvp_reversemode, deriv, make_jvp, make_vjp, value_and_grad, grad_and_aux, grad_named, holomorphic_grad. Non-trivial iff the FD reference is self-consistent; distinct = distinct (in shape class, out shape class, argnum form, #extra args) signatures."
 ASSUMPTIONS = ["reference J: 6th-order Richardson FD, error <= 1e-8; tolerance 1e-6 relative", "ranks <= 3, sizes <= 24 per side"]
 
 
@@ -178,7 +178,50 @@ def run_case(res, case):
             gn = grad_named(named, "x")(a0, x0, b0)
             if not close(gn, gexp):
                 return viol("wrong_value", "grad_named deviates", "grad_named")
+            # by name on partially applied functions (positionally / by keyword bound arguments) and on
+            # functions with defaults: only WHICH argument is differentiated may change
+            import functools
+
+            def named_kw(a, x, b, scale=1.0, shift=0.0):
+                return anp.sum(w * f_ag(a, x, b, scale=scale, shift=shift))
+
+            for label, fun_, args_, kw_ in (
+                ("partial_positional", functools.partial(named, a0), (x0, b0), {}),
+                ("partial_keyword", functools.partial(named, b=b0), (a0, x0), {}),
+                ("partial_keyword_scale", functools.partial(named_kw, scale=scale), (a0, x0, b0), {}),
+                ("defaults_and_kwargs", named_kw, (a0, x0, b0), {"scale": scale}),
+            ):
+                gnp = grad_named(fun_, "x")(*args_, **kw_)
+                if onp.shape(gnp) != in_shape or not close(gnp, gexp):
+                    return viol("wrong_value", "grad_named(%s, 'x') deviates from the gradient w.r.t. x: %s" % (label, common.brief(onp.asarray(gnp))), "grad_named:" + label)
             ops_checked.append("grad_named")
+            # --- negative positions count from the end (x is argument -2 of (a, x, b); last of (a, b, x))
+            last = lambda a, b, x, scale=1.0: L_ag(a, x, b, scale=scale)
+            last_f = lambda a, b, x, scale=1.0: f_ag(a, x, b, scale=scale)
+            var = lambda *args, **kw: L_ag(args[0], args[-1], args[1], **kw)  # variadic: the last positional is x
+            for label, val_ in (
+                ("grad:-2", lambda: grad(L_ag, -2)(a0, x0, b0, scale=scale)),
+                ("grad:-1", lambda: grad(last, -1)(a0, b0, x0, scale=scale)),
+                ("grad:-1:variadic", lambda: grad(var, -1)(a0, b0, x0, scale=scale)),
+                ("value_and_grad:-1", lambda: value_and_grad(last, -1)(a0, b0, x0, scale=scale)[1]),
+                ("value_and_grad:-1:variadic", lambda: value_and_grad(var, -1)(a0, b0, x0, scale=scale)[1]),
+                ("make_vjp:-1", lambda: make_vjp(last, -1)(a0, b0, x0, scale=scale)[0](1.0)),
+                ("grad:(-1,0)", lambda: grad(last, (-1, 0))(a0, b0, x0, scale=scale)[0]),
+                ("grad:[-1]", lambda: grad(var, [-1])(a0, b0, x0, scale=scale)[0]),
+            ):
+                r = val_()
+                if onp.shape(r) != in_shape or not close(r, gexp):
+                    return viol("wrong_value", "%s deviates from the gradient w.r.t. x: %s" % (label, common.brief(onp.asarray(r))), label)
+            vvar = value_and_grad(var, -1)(a0, b0, x0, scale=scale)[0]
+            if not bits_equal(onp.asarray(vvar), onp.asarray(plain_L := L_ag(a0, x0, b0, scale=scale))):
+                return viol("primal_mismatch", "value_and_grad(variadic, -1) value %r vs plain %r" % (vvar, plain_L), "value_and_grad:-1:variadic")
+            jneg = jacobian(last_f, -1)(a0, b0, x0, scale=scale)
+            if onp.shape(jneg) != out_shape + in_shape or not close(jneg, Jt):
+                return viol("wrong_value", "jacobian(argnum=-1) deviates", "jacobian:-1")
+            tneg = make_jvp(last_f, -1)(a0, b0, x0, scale=scale)(v)[1]
+            if not close(tneg, expt):
+                return viol("wrong_value", "make_jvp(argnum=-1) deviates", "make_jvp:-1")
+            ops_checked.append("negative_argnum")
             vv, vg = value_and_grad(L_ag, 1)(a0, x0, b0, scale=scale)
             plain = L_ag(a0, x0, b0, scale=scale)
             if not bits_equal(onp.asarray(vv), onp.asarray(plain)) or find_boxes(vv):
@@ -227,6 +270,27 @@ def run_case(res, case):
                 if not close(hs, Ht, tolH):
                     return viol("wrong_value", "hessian deviates by %r" % float(onp.max(onp.abs(hs - Ht))), "hessian")
                 ops_checked.append("hessian")
+                # hessian of the (array-valued) map itself is the Jacobian of its Jacobian: shape out + in + in
+                if m * n <= 48 and m > 0:
+                    Jf = lambda vv_: common.realify(jacobian(fx)(common.unrealify(vv_, x0)))
+                    H3 = onp.zeros((m * n, n))
+                    ok3 = True
+                    for j in range(n):
+                        e = onp.zeros(n)
+                        e[j] = 1.0
+                        fd = fd_directional(Jf, xf, e)
+                        if not fd.ok:
+                            ok3 = False
+                            break
+                        H3[:, j] = fd.val
+                    if ok3:
+                        tol3 = 1e-6 * (1.0 + float(onp.max(onp.abs(H3))))
+                        h3 = hessian(f_ag, 1)(a0, x0, b0, scale=scale)
+                        if onp.shape(h3) != out_shape + in_shape + in_shape:
+                            return viol("wrong_shape", "hessian of a map with output shape %s has shape %s, expected out+in+in" % (out_shape, onp.shape(h3)), "hessian:array_valued")
+                        if not close(h3, H3.reshape(out_shape + in_shape + in_shape), tol3):
+                            return viol("wrong_value", "hessian of the array-valued map deviates from the Jacobian of its Jacobian", "hessian:array_valued")
+                        ops_checked.append("hessian:array_valued")
                 vt = rng.standard_normal(in_shape)
                 hexp = onp.tensordot(Ht, vt, axes=len(in_shape))
                 hv = hessian_tensor_product(L_ag, 1)(a0, x0, b0, vt, scale=scale)
